@@ -220,6 +220,14 @@ def refine(key, sc, line, judge_ans):
                 elif seen and it.startswith("w:"):
                     return key + ":" + op.split(",")[0]
         return key
+    if key == "clean-without-sending-close":
+        # our close frame was queued behind synchronous/chopped writes and the TCP drop discarded the queue
+        per = wsrun.parse_line(line)
+        for k, op in enumerate(ops):
+            a = op.split(",")
+            if (a[0] == "msg" and a[4] == "1") or (a[0] in ("fd", "mf") and a[-1] == "1"):
+                return key + ":close-frame-stuck-behind-queued-sync-writes"
+        return key
     if key == "clean-without-valid-peer-close" and not cfg.get("fbd", 1):
         return key + ":failByClose-invalid-peer-close-answered-then-taken-as-reply"
     if key in ("clean-reports-other-code-than-peers", "clean-without-valid-peer-close") and not cfg["srv"]:
